@@ -119,28 +119,25 @@ Theorem C20_labels_repaired : forall op, In op label_exceptions_pre -> row_ok (o
 Proof. exact labels_repaired. Qed.
 
 (** A reused compiler keeps the embedder's pre-evaluation mode.  The fill arm compiles the filled
-    function in editor mode with in_fill set, try_ sets in_try; for every word without a code macro,
-    whatever fails inside it and however fill and try are nested, the whole saved state (mode, in_fill,
-    in_try, comptime_depth) is back after compiling it - on the Ok path and on the Err path. *)
-Theorem C20_compile_restores_state : forall fuel s w, no_macro w = true -> snd (ccompile true fuel s w) = s.
+    function in editor mode with in_fill set, try_ sets in_try, a code-macro expansion raises
+    comptime_depth and lowers the mode for the generated code.  For the code as it stands (fix 501199d
+    included) and EVERY word - fill, try and code macros nested in any way, whatever fails inside,
+    unparsable macro output and too-deep macro recursion included - the whole saved state (mode,
+    in_fill, in_try, comptime_depth) is back after compiling it, on the Ok path and on the Err path. *)
+Theorem C20_compile_restores_state : forall fuel s w, snd (ccompile true true fuel s w) = s.
 Proof. exact compile_restores. Qed.
-Theorem C20_snippet_restores_state : forall fuel mode ws, forallb no_macro ws = true ->
-  clines (ccompile true fuel) (CS mode false false 0) ws = CS mode false false 0.
+Theorem C20_snippet_restores_state : forall fuel mode ws,
+  clines (ccompile true true fuel) (CS mode false false 0) ws = CS mode false false 0.
 Proof. exact snippet_restores. Qed.
-(** in_fill and in_try come back for every word, code macros included. *)
-Theorem C20_compile_restores_flags : forall fuel s w,
-  cs_in_fill (snd (ccompile true fuel s w)) = cs_in_fill s /\
-  cs_in_try (snd (ccompile true fuel s w)) = cs_in_try s.
-Proof. exact compile_restores_flags. Qed.
-(** Finding (code as it stands, confirmed on the implementation): an error inside the expansion of a
-    code macro leaves comptime_depth incremented. *)
-Theorem C20_codemacro_depth_leak_refuted : exists s w,
-  fst (ccompile true 200 s w) = false /\ cs_depth (snd (ccompile true 200 s w)) <> cs_depth s.
-Proof. exact codemacro_err_leaks_depth_refuted. Qed.
+(** Record of the repaired finding (code before 501199d): an error inside the expansion of a code
+    macro left comptime_depth incremented. *)
+Theorem C20_codemacro_depth_leak_refuted_pre : exists s w,
+  fst (ccompile true false 200 s w) = false /\ cs_depth (snd (ccompile true false 200 s w)) <> cs_depth s.
+Proof. exact codemacro_err_leaks_depth_refuted_pre. Qed.
 (** Why the order "restore, then `?`" in the fill arm matters: with the `?` first, one rejected
     snippet leaves the compiler in editor mode. *)
 Theorem C20_fill_without_restore_leaks_mode : exists s w, no_macro w = true /\
-  fst (ccompile false 200 s w) = false /\ cs_mode (snd (ccompile false 200 s w)) = Lsp /\ cs_mode s = Normal.
+  fst (ccompile false true 200 s w) = false /\ cs_mode (snd (ccompile false true 200 s w)) = Lsp /\ cs_mode s = Normal.
 Proof. exact unfixed_fill_leaks_mode. Qed.
 
 (** The backend of compile-time evaluation (code as it stands, fix 2bf92f0): a fresh safe backend in
@@ -153,19 +150,38 @@ Proof. exact comptime_backend_never_native. Qed.
 (** Record of the repaired finding: before 2bf92f0 editor mode evaluated on the native backend. *)
 Theorem C20_comptime_backend_refuted_pre : exists m, comptime_backend_pre m = BNative.
 Proof. exact comptime_backend_refuted_pre. Qed.
-(** The pre-evaluation cache: a miss calls the compiler's own backend ... *)
-Theorem C20_precache_miss_own_backend : forall key keyb val eval c b k,
-  clookup key keyb val k c = None ->
-  snd (fst (comptime_cached key keyb val eval c b k)) = snd (eval b k).
-Proof. exact cache_miss_own_backend. Qed.
-(** ... but (finding, code as it stands) a hit serves what ANOTHER compiler's backend produced, with
-    no call on the asking compiler's backend: the key is the node alone. *)
-Theorem C20_precache_crosses_backends_refuted :
+(** The pre-evaluation cache (code as it stands, fix 49da69f: only a node that is_pure is looked up
+    and stored).  An impure node is evaluated on the asking compiler's own backend every time ... *)
+Theorem C20_precache_skips_impure : forall key keyb val eval cacheable c b k, cacheable k = false ->
+  comptime_cached key keyb val eval cacheable c b k = (fst (eval b k), snd (eval b k), c).
+Proof. exact cache_skips_impure. Qed.
+(** ... and, pure nodes calling no backend (C20_pure_no_effect), over any history of compilers and
+    backends on the thread the value a compiler gets is the value its own evaluation gives, its calls
+    are calls on its own backend, and the cache stays coherent: no backend's value is ever served. *)
+Theorem C20_precache_sound : forall key keyb val eval cacheable,
+  (forall a b, keyb a b = true -> a = b) ->
+  (forall k, cacheable k = true -> forall b b', eval b k = eval b' k /\ snd (eval b k) = []) ->
+  forall c b k, coherent key keyb val eval cacheable c ->
+  fst (fst (comptime_cached key keyb val eval cacheable c b k)) = fst (eval b k) /\
+  (snd (fst (comptime_cached key keyb val eval cacheable c b k)) = [] \/
+   snd (fst (comptime_cached key keyb val eval cacheable c b k)) = snd (eval b k)) /\
+  coherent key keyb val eval cacheable (snd (comptime_cached key keyb val eval cacheable c b k)).
+Proof. exact cache_sound. Qed.
+(** Record of the repaired finding (code before 49da69f): a hit served what ANOTHER compiler's backend
+    had produced, with no call on the asking compiler's backend; the same history now reaches the
+    asking compiler's own (denying) backend. *)
+Theorem C20_precache_crosses_backends_refuted_pre :
   exists (eval : nat -> nat -> option string * list event) c1 v1,
-    comptime_cached nat Nat.eqb (option string) eval [] 0 7 = (Some v1, ["file_read_all"%string], c1) /\
+    comptime_cached_pre nat Nat.eqb (option string) eval [] 0 7 = (Some v1, ["file_read_all"%string], c1) /\
     eval 1 7 = (None, ["file_read_all"%string]) /\
-    comptime_cached nat Nat.eqb (option string) eval c1 1 7 = (Some v1, [], c1).
-Proof. exact cache_crosses_backends_refuted. Qed.
+    comptime_cached_pre nat Nat.eqb (option string) eval c1 1 7 = (Some v1, [], c1).
+Proof. exact cache_crosses_backends_refuted_pre. Qed.
+Theorem C20_precache_same_history_repaired :
+  let eval := fun (b k : nat) => if Nat.eqb b 0 then (Some "contents"%string, ["file_read_all"%string])
+                                 else (None, ["file_read_all"%string]) in
+  let c1 := snd (comptime_cached nat Nat.eqb (option string) eval (fun _ => false) [] 0 7) in
+  comptime_cached nat Nat.eqb (option string) eval (fun _ => false) c1 1 7 = (None, ["file_read_all"%string], []).
+Proof. exact cache_same_history_repaired. Qed.
 
 (** Non-vacuity: with concrete label-respecting semantics, a pure tree (a modifier running an
     operand twice around pure primitives, through a function call) is accepted and silent, while the
@@ -195,10 +211,11 @@ Print Assumptions C20_labels_refuted_pre.
 Print Assumptions C20_labels_repaired.
 Print Assumptions C20_compile_restores_state.
 Print Assumptions C20_snippet_restores_state.
-Print Assumptions C20_compile_restores_flags.
-Print Assumptions C20_codemacro_depth_leak_refuted.
+Print Assumptions C20_codemacro_depth_leak_refuted_pre.
 Print Assumptions C20_fill_without_restore_leaks_mode.
 Print Assumptions C20_comptime_backend_own.
 Print Assumptions C20_comptime_backend_refuted_pre.
-Print Assumptions C20_precache_miss_own_backend.
-Print Assumptions C20_precache_crosses_backends_refuted.
+Print Assumptions C20_precache_skips_impure.
+Print Assumptions C20_precache_sound.
+Print Assumptions C20_precache_crosses_backends_refuted_pre.
+Print Assumptions C20_precache_same_history_repaired.
